@@ -8,7 +8,7 @@ for d in sorted(glob.glob('/verif/seeded/*_*')):
     first=' '.join(x.strip('# *-') for x in notes[:3])[:220].replace('|','/')
     rows.append((os.path.basename(d), ', '.join(m.get('caught_by',[])) or 'NOT CAUGHT', first))
 p='/verif/DESIGN.md'; s=open(p).read()
-a=s.index("Per-change results (own check, quick tier):"); b=s.index("## Corrections")
+a=s.index("Per-change results (own check, quick tier):"); b=s.index("## 18. ")
 new="Per-change results (own check, quick tier):\n\n| change | caught by | what it is (from the author's notes) |\n|---|---|---|\n"
 for n,c,f in rows:
     new+=f'| {n} | {c} | {f} |\n'
